@@ -155,8 +155,10 @@ func (e *kvElection) handleWatchEvent(entry Entry) {
 
 	// If we're the leader, check if we're still the leader
 	if e.IsLeader() {
-		// If the new leader ID is different, we've been taken over
-		if newLeaderID != e.cfg.InstanceID {
+		// If a newer record names another instance, we've been taken over.
+		// A late or duplicated event of an older revision (e.g. the previous
+		// leader's last heartbeat) says nothing about the current record.
+		if newLeaderID != e.cfg.InstanceID && entry.Revision() > e.revision.Load() {
 			log := e.getLogger()
 			log.Warn("leadership_lost_via_watcher",
 				append(e.logWithContext(e.ctx),
